@@ -212,13 +212,27 @@ def make_prescription(rng):
     fy = sorted(set([0.0] + [round(rng.uniform(0.5, 25), 6) for _ in range(nf - 1)]))
     nw = rng.randint(1, 12)
     wl = [round(rng.uniform(0.4, 1.6), 6) for _ in range(nw)]
-    return {'surfs': surfs, 'ap': ap, 'apv': apv, 'ftype': ftype, 'fy': fy, 'wl': wl, 'pw': rng.randint(1, nw), 'finite': finite}
+    pw = rng.randint(1, nw)
+    # field points off the meridional plane as well: several points may share a y value (x-only field lists, x/y grids)
+    fx = [0.0] * len(fy)
+    if rng.random() < 0.5:
+        kind = rng.choice(['x_only', 'grid', 'free'])
+        if kind == 'x_only':
+            fx, fy = list(fy), [0.0] * len(fy)
+        elif kind == 'grid':
+            ys = fy[:2]
+            xs = sorted(set([0.0, round(rng.uniform(0.5, 20), 6), -round(rng.uniform(0.5, 20), 6)]))
+            pts = [(x_, y_) for y_ in ys for x_ in xs][:12]
+            fx, fy = [q[0] for q in pts], [q[1] for q in pts]
+        else:
+            fx = [round(rng.uniform(-20, 20), 6) for _ in fy]
+    return {'surfs': surfs, 'ap': ap, 'apv': apv, 'ftype': ftype, 'fx': fx, 'fy': fy, 'wl': wl, 'pw': pw, 'finite': finite}
 
 
 def render(p, mode='SEQ'):
     L = ['MODE %s' % mode, 'UNIT MM X W X CM MR CPMM', '%s %r%s' % (p['ap'], p['apv'], ' 0' if p['ap'] != 'ENPD' else ''), 'GCAT SCHOTT',
          'FTYP %d 0 %d %d 0 0 0' % (p['ftype'], len(p['fy']), len(p['wl'])),
-         'XFLN ' + ' '.join('0.0' for _ in p['fy']), 'YFLN ' + ' '.join(repr(v) for v in p['fy']), 'PWAV %d' % p['pw']]
+         'XFLN ' + ' '.join(repr(v) for v in p.get('fx', [0.0] * len(p['fy']))), 'YFLN ' + ' '.join(repr(v) for v in p['fy']), 'PWAV %d' % p['pw']]
     for i, w in enumerate(p['wl']):
         L.append('WAVM %d %r 1' % (i + 1, w))
     for i, s in enumerate(p['surfs']):
@@ -273,6 +287,8 @@ def check_lens(lens, p, note):
     note('C20.file.aperture', lens.aperture.ap_type == ap_name and lens.aperture.value == p['apv'], '%s %r' % (lens.aperture.ap_type, lens.aperture.value))
     note('C20.file.field_type', lens.field_type == ('angle' if p['ftype'] == 0 else 'object_height'), str(lens.field_type))
     note('C20.file.field_values', sorted(float(f.y) for f in lens.fields.fields) == sorted(p['fy']), str([f.y for f in lens.fields.fields]))
+    note('C20.file.field_points_are_the_xy_pairs_of_the_file', sorted((float(f.x), float(f.y)) for f in lens.fields.fields) ==
+         sorted(zip(p.get('fx', [0.0] * len(p['fy'])), p['fy'])), str([(f.x, f.y) for f in lens.fields.fields]))
     note('C20.file.wavelengths', [float(w.value) for w in lens.wavelengths.wavelengths] == p['wl'], '')
     note('C20.file.primary_wavelength', lens.wavelengths.primary_index == p['pw'] - 1, str(lens.wavelengths.primary_index))
 
